@@ -867,6 +867,60 @@ theorem isparent_mkp_iff (a : Bool) (as bs : List Str) (ha : Clean as) (hb : Cle
         exact clean_ne_nil ha [] (by simp) rfl
     · rw [if_neg hbn]
 
+theorem startsWith_append_self (p t : Str) : startsWith (p ++ t) p = true :=
+  (startsWith_iff_prefix _ _).2 (List.prefix_append _ _)
+
+/-- `frombase` on a path that literally starts with `p1`: the slice -/
+theorem frombase_of_append (p t : Str) (h : isparent p (p ++ t) = true) :
+    frombase p (p ++ t) = .ok t := by
+  simp only [frombase, h, startsWith_append_self, Bool.not_true, Bool.false_eq_true, if_false,
+    List.drop_left]
+
+/-- one path absolute, the other relative: `isparent` holds only for the empty component list
+(`"/"` resp. `""`), whose `split` is dropped entirely -/
+theorem isparent_mkp_mixed (a b : Bool) (as bs : List Str) (ha : Clean as) (hb : Clean bs)
+    (hab : a ≠ b) : isparent (mkp a as) (mkp b bs) = true ↔ as = [] := by
+  unfold isparent
+  simp only [splitSlash]
+  rw [isparent_core_iff, splitOn_mkp ha, splitOn_mkp hb]
+  by_cases hne : as = []
+  · subst hne
+    have : dropTrailingEmpty ((if a then [[]] else []) ++ (if ([] : List Str) = [] then [[]] else [])) = [] := by
+      cases a <;> decide
+    rw [this]
+    simp
+  · rw [if_neg hne]
+    have hd : dropTrailingEmpty ((if a then [[]] else []) ++ as) = (if a then [[]] else []) ++ as := by
+      rcases list_nil_or_snoc as with rfl | ⟨i, x, rfl⟩
+      · contradiction
+      · rw [← List.append_assoc]
+        exact dropTrailingEmpty_snoc _ x (clean_ne_nil ha x (by simp))
+    rw [hd]
+    simp only [hne, iff_false]
+    cases as with
+    | nil => contradiction
+    | cons x xs =>
+      have hx : x ≠ [] := clean_ne_nil ha x (by simp)
+      cases a <;> cases b
+      · exact absurd rfl hab
+      · simp only [Bool.false_eq_true, if_false, if_true, List.nil_append, List.cons_append,
+          List.cons_prefix_cons]
+        rintro ⟨rfl, -⟩; exact hx rfl
+      · simp only [Bool.false_eq_true, if_false, if_true, List.nil_append, List.cons_append]
+        by_cases hbn : bs = []
+        · subst hbn
+          simp only [if_true, List.cons_prefix_cons]
+          rintro ⟨-, h2⟩
+          simp at h2
+        · rw [if_neg hbn]
+          cases bs with
+          | nil => contradiction
+          | cons y ys =>
+            rw [List.cons_prefix_cons]
+            rintro ⟨h1, -⟩
+            exact clean_ne_nil hb y (by simp) h1.symm
+      · exact absurd rfl hab
+
 theorem mkp_prefix {a : Bool} {as bs : List Str} (hp : as <+: bs) : mkp a as <+: mkp a bs := by
   obtain ⟨t, rfl⟩ := hp
   by_cases h1 : as = []
